@@ -36,5 +36,7 @@ var propSpecs = map[string]PropSpec{
 	"C16": {ID: "C16", Level: "proof", Patterns: modelPkgs},
 	"C18": {ID: "C18", Level: "proof", Patterns: modelPkgs},
 	"C19": {ID: "C19", Level: "proof", Patterns: modelPkgs},
-	"C20": {ID: "C20", Level: "proof", Patterns: modelPkgs},
+	"C20": {ID: "C20", Level: "other", Patterns: modelPkgs,
+		Explanation: "Partial decision by contract proofs on the real code: vapour pressure positive, wet-bulb bisection bracket invariant, depression identity, pointwise data flow per timestep. The ordering claims that need properties of the transcendental formulas themselves (monotonicity of Goff-Gratch, dew point <= dry bulb, dew point rising with humidity, finiteness) are not decidable with uninterpreted math functions and are not covered.",
+		NotCovered: []string{"saturation vapour pressure strictly increasing with temperature", "dew point <= dry bulb and rising with humidity", "finiteness of all outputs (division by atmPressure - vapourPressure, 17.27 - F)"}},
 }
